@@ -155,6 +155,9 @@ def execute(program: Dict[str, Any]) -> Dict[str, Any]:
             store = RecordingStore()
             run = E.EngineRun(program["world"], program["cfg"], ee, store=store)
             run.ctx_style = program.get("ctx_style", "both")
+            # clauses that depend on the t4 section being READ carry the context shape in their signature (known finding:
+            # Apply reads ctx.config only); every other clause is shape-independent
+            cfg_only_tag = ":ctx-cfg-only" if run.ctx_style == "cfg_only" else ""
             cur: Dict[str, Any] = {"deltas": [], "approved": None, "snap_calls": 0}
 
             def delib(ctx, state, bundle):
@@ -281,7 +284,7 @@ def execute(program: Dict[str, Any]) -> Dict[str, Any]:
                         for ns in namespaces:
                             nsobj = cm._ns.get(ns)
                             if nsobj is not None and nsobj.size() != 0:
-                                bad("invalidation", "namespace-not-empty-after-apply", "namespace %s holds %d entries; %s" % (ns, nsobj.size(), ctxd))
+                                bad("invalidation", "namespace-not-empty-after-apply" + cfg_only_tag, "namespace %s holds %d entries; %s" % (ns, nsobj.size(), ctxd))
                         stats["invalidation_checked"] = stats.get("invalidation_checked", 0) + 1
                     # --- cadence ---
                     try:
@@ -290,7 +293,7 @@ def execute(program: Dict[str, Any]) -> Dict[str, Any]:
                         tnum = 0
                     want_snap = (tnum % every) == 0
                     if bool(cur["snap_calls"]) != want_snap or cur["snap_calls"] > 1:
-                        bad("cadence", "snapshot-cadence", "turn %r every %d: %d snapshot write(s); %s" % (op.get("turn_id"), every, cur["snap_calls"], ctxd))
+                        bad("cadence", "snapshot-cadence" + cfg_only_tag, "turn %r every %d: %d snapshot write(s); %s" % (op.get("turn_id"), every, cur["snap_calls"], ctxd))
                     if want_snap:
                         stats["snapshots_expected"] = stats.get("snapshots_expected", 0) + 1
                         p = os.path.join(ee.snap, "state_%s.json" % op["agent"])
